@@ -130,6 +130,50 @@ def run(R, tier, seed, driver_ok):
             mv = float(metric(Q[i_], Q[j_]))
             if abs(mv - D[i_, j_]) > REL * normL * np.linalg.norm(Q[i_] - Q[j_]) + 1e-300:
                 R.violation('metric-vs-pair', f'{label}: get_metric {mv!r} vs pair_distance {D[i_, j_]!r} (batch of {N * N})', case); break
+    # ---- degenerate but legal training sets (a constraint between a point and itself, a constant feature, one feature):
+    #      fit may refuse them, but a learner that comes out fitted must still report a finite pseudo-metric
+    import warnings
+    from metric_learn import ITML, LSML, MMC, SDML, Covariance, LFDA, NCA
+    for rep in range(2 if tier == 'quick' else 8):
+        d = int(rng.randint(2, 5)); n = 24
+        X = rng.randn(n, d) * (1 + rng.rand(d))
+        idx = rng.randint(0, n, size=(10, 2)); idx = idx[idx[:, 0] != idx[:, 1]]
+        yy = np.where(np.arange(len(idx)) % 2 == 0, 1, -1)
+        j = int(rng.randint(n))
+        self_pair = np.array([[j, j]])
+        q = rng.randint(0, n, size=(8, 4)); q = q[(q[:, 0] != q[:, 1]) & (q[:, 2] != q[:, 3])]
+        degen = [
+            ('ITML+dissimilar(x,x)', lambda: ITML(max_iter=30).fit(X[np.vstack([idx, self_pair])], np.append(yy, -1))),
+            ('ITML+similar(x,x)', lambda: ITML(max_iter=30).fit(X[np.vstack([idx, self_pair])], np.append(yy, 1))),
+            ('MMC+dissimilar(x,x)', lambda: MMC(max_iter=5).fit(X[np.vstack([idx, self_pair])], np.append(yy, -1))),
+            ('MMC+similar(x,x)', lambda: MMC(max_iter=5).fit(X[np.vstack([idx, self_pair])], np.append(yy, 1))),
+            ('SDML+dissimilar(x,x)', lambda: SDML(prior='identity', balance_param=0.1).fit(X[np.vstack([idx, self_pair])], np.append(yy, -1))),
+            ('LSML+(a,b,x,x)', lambda: LSML(max_iter=20).fit(X[np.vstack([q, [[q[0, 0], q[0, 1], j, j]]])])),
+            ('LSML+(x,x,c,d)', lambda: LSML(max_iter=20).fit(X[np.vstack([q, [[j, j, q[0, 2], q[0, 3]]]])])),
+            ('Covariance+constant-feature', lambda: Covariance().fit(np.hstack([X, np.full((n, 1), 3.0)]))),
+            ('LFDA one feature', lambda: LFDA().fit(X[:, :1], np.arange(n) % 2)),
+            ('NCA duplicate point in two classes', lambda: NCA(max_iter=5).fit(np.vstack([X, X[:1]]), np.append(np.arange(n) % 2, 1))),
+        ]
+        for label, mk in degen:
+            case = {'est': label, 'stream': 'degenerate-training-set', 'X': X, 'pairs': idx, 'y': yy, 'self': j, 'quadruplets': q}
+            R.case(('c01-degenerate', label, X.tobytes().hex()[:48]), True, sample={'est': label, 'stream': 'degenerate-training-set'}, branch='degenerate-training-set')
+            try:
+                with warnings.catch_warnings():
+                    warnings.simplefilter('ignore')
+                    est = mk()
+            except Exception as e:
+                R.count(f'degenerate-training-set: fit refused ({type(e).__name__})')
+                continue
+            dq = est.components_.shape[1]
+            Q = rng.randn(6, dq)
+            ii, jj = np.meshgrid(np.arange(6), np.arange(6), indexing='ij')
+            D = np.asarray(est.pair_distance(np.stack([Q[ii.ravel()], Q[jj.ravel()]], axis=1))).reshape(6, 6)
+            mf = est.get_metric()
+            mv = np.array([float(mf(Q[0], Q[t_])) for t_ in range(6)])
+            if not (np.all(np.isfinite(D)) and np.all(np.isfinite(mv))):
+                R.violation('nonfinite', f'{label}: fit returned a learner whose distances are not finite', case)
+            elif D.min() < 0 or np.any(np.diag(D) != 0) or mv[0] != 0:
+                R.violation('self-nonzero', f'{label}: negative distance or d(x,x) ≠ 0', case)
     if driver_ok and lines:
         outs = lean_run(lines)
         worst = 0.0
